@@ -290,6 +290,22 @@ class W3World(World):
             for s in sites:
                 ams.append(gen_am(rng, 'am-' + s, s, self.dels, False, sites, self.cfg['disagree']))
             ams.append(gen_am(rng, 'am-net', None, self.dels, True, sites, self.cfg['disagree']))
+            if rng.random() < 0.35:
+                # an exchange-point aggregate that owns nothing but a stitching link: every element of its
+                # advertisement is shared with other aggregates
+                sx = rng.choice(sites)
+                nodes = []
+                for nid, cls, typ in (('stitch-%s-link' % sx, 'Link', 'L2Path'), ('net-%s-p' % sx, 'ConnectionPoint', 'TrunkPort'),
+                                      ('%s-sw-up' % sx, 'ConnectionPoint', 'TrunkPort')):
+                    p = {'Name': nid, 'Type': typ, 'StitchNode': 'true', 'Capacities': json.dumps({'bw': 100})}
+                    if self.cfg['disagree']:
+                        p['Details'] = 'as seen by am-ixp'
+                    if cls == 'Link':
+                        p['CapacityDelegations'] = gen_delegations(rng, self.dels, 'CapacityDelegations', {}, nid, allow_pool=False)
+                    nodes.append([nid, cls, p])
+                ams.append({'am': 'am-ixp', 'nodes': nodes,
+                            'edges': [['stitch-%s-link' % sx, 'connects', 'net-%s-p' % sx],
+                                      ['stitch-%s-link' % sx, 'connects', '%s-sw-up' % sx]]})
             return {'op': 'build', 'ams': ams}
         if self.steps_done >= self.cfg['steps']:
             return None
@@ -507,7 +523,12 @@ class W3World(World):
             return 'raised'
         for d, gid in sorted(adms.items()):
             pre = self.state(gid)
-            NetworkXADMGraph(graph_id=gid, importer=self.imp).rewrite_delegations(real_adm_id='real-' + gid)
+            try:
+                NetworkXADMGraph(graph_id=gid, importer=self.imp).rewrite_delegations(real_adm_id='real-' + gid)
+            except Exception as e:
+                self.flag('C13', 'rewrite_only_key', {'symptom': 'raised', 'exc': type(e).__name__},
+                          're-keying the delegations of partition %s raised %s: %s' % (gid, type(e).__name__, str(e)[:300]))
+                return 'raised'
             post = self.state(gid)
             exp = {'nodes': {}, 'edges': pre['edges']}
             for n, lst in pre['nodes'].items():
@@ -629,9 +650,13 @@ class W3World(World):
             for k in DEL_PROPS:
                 got = jprop(p, k)
                 want = e['dels'].get(k)
-                if (got or None) is None and not want:
-                    if k in p and p[k] == '' and 'empty_delegation_after_unmerge' not in self.avoid_ok:
-                        pass
+                if not want:
+                    if k in p:
+                        self.flag('C14', 'unmerge_inverse' if why == 'unmerge' else 'cbm_delegation_keys',
+                                  dict(sig, kind=k, symptom='empty_delegation_left' if p[k] == '' else 'stale'),
+                                  'element %s has %s = %r although no merged model contributes a delegation there '
+                                  '(a model that never saw that delegation has no such property)' % (n, k, p[k]))
+                        return
                     continue
                 if canon(got) != canon(want):
                     self.flag('C14', 'cbm_delegation_keys', dict(sig, kind=k),
